@@ -129,7 +129,7 @@ PROPS['C01'] = dict(
          'seven lost, then its Adler-32-equivalent partner under the same number; oracle: every server tun write is a packet '
          'the sender completed or gave up; non-trivial iff >= 1 such wrap happened. One case in eight instead: real client + real server on a router that only drops, chosen by what it sees: calibration packet, one-fragment packet, '
          'then every answer is dropped while N in {7,15,6,8,3} one-fragment packets and the first fragment of a crafted two-fragment packet pass; oracle: every client '
-         'tun write was offered on the server\'s tun; non-trivial iff the crafted packet\'s first fragment was seen and dropped. distinct = hash of the choice tape',
+         'tun write was offered on the server\'s tun; non-trivial iff the crafted packet\'s first fragment was seen and dropped. One such case in three is the merge variant (queries held back and released late, the server gives a packet up whose first fragment the client holds, seven packets lost, then its Adler-equivalent partner); when the partner\'s first fragment is lost too the case is known finding K3 / K4 (excluded by construction, counted). distinct = hash of the choice tape',
     engine_text='rapidcheck over choice tapes; simnet hosting real iodined + real iodine clients; ASan+UBSan; crafted adversarial packets (zlib stream of another packet at the second fragment\'s offset inside an incompressible packet)',
     bounds='<= 3 clients, <= 30 offers, packets <= 6000+24 bytes, <= 40 virtual s of faults, delays <= 3 s',
     trusted_base=TB_SIM,
